@@ -9,6 +9,7 @@ import (
 	"os"
 	"reflect"
 	"sort"
+	"sync"
 )
 
 // Sim is what a running simulation installs.
@@ -22,6 +23,12 @@ type Sim interface {
 	// returned to jennifer instead of performing the call. For op "WriteFile" a
 	// non-negative partial asks the wrapper to write only that many bytes first.
 	FS(op, name string, size int) (partial int, err error)
+	// Blocked is called by a task that could not take a lock: the scheduler must let
+	// another task run (a single-task simulation treats it as a deadlock).
+	Blocked(what string)
+	// Coin is a cooperative fault point ("buggify"): a legal but unusual behaviour is
+	// taken when it returns true.
+	Coin(kind string) bool
 }
 
 // Cur is the installed simulation (nil = none). Only one simulation lives in a
@@ -75,14 +82,24 @@ var MapCalls = map[int]int{}
 var MapCallsMulti = map[int]int{}
 var MapNonIdentity = map[int]int{}
 
+// keyMu guards KeyIndex: the workload registers keys from many goroutines in the
+// real-parallel race leg (package jen itself never touches it there).
+var keyMu sync.Mutex
+
 func RegisterKey(k interface{}, idx int) {
+	keyMu.Lock()
 	if KeyIndex == nil {
 		KeyIndex = map[interface{}]int{}
 	}
 	KeyIndex[k] = idx
+	keyMu.Unlock()
 }
 
-func ResetKeys() { KeyIndex = nil }
+func ResetKeys() {
+	keyMu.Lock()
+	KeyIndex = nil
+	keyMu.Unlock()
+}
 
 // MapKeys snapshots the keys of m in a canonical order and applies the
 // permutation chosen by the simulation.
@@ -145,6 +162,8 @@ func canonical[K comparable](keys []K) {
 	}
 	// registry order
 	idx := make([]int, len(keys))
+	keyMu.Lock()
+	defer keyMu.Unlock()
 	for i, k := range keys {
 		n, ok := KeyIndex[interface{}(k)]
 		if !ok {
@@ -378,4 +397,103 @@ var Globals func() map[string]interface{}
 func ResetRun() {
 	FSLog = nil
 	Uncontrolled = 0
+	resetSync()
+}
+
+// ---- synchronisation primitives (seam S6) -------------------------------------
+// A task parked on a real lock could never be released by a cooperative scheduler,
+// so blocking operations of package sync are redirected here by the rewriter: they
+// spin on the non-blocking variant and tell the scheduler to run someone else.
+
+func MutexLock(m *sync.Mutex) {
+	if Cur == nil {
+		m.Lock()
+		return
+	}
+	for !m.TryLock() {
+		Cur.Blocked("sync.Mutex.Lock")
+	}
+}
+
+func RWMutexLock(m *sync.RWMutex) {
+	if Cur == nil {
+		m.Lock()
+		return
+	}
+	for !m.TryLock() {
+		Cur.Blocked("sync.RWMutex.Lock")
+	}
+}
+
+func RWMutexRLock(m *sync.RWMutex) {
+	if Cur == nil {
+		m.RLock()
+		return
+	}
+	for !m.TryRLock() {
+		Cur.Blocked("sync.RWMutex.RLock")
+	}
+}
+
+var onceState = map[*sync.Once]int{} // 1 = running, 2 = done (simulation only)
+
+func OnceDo(o *sync.Once, f func()) {
+	if Cur == nil {
+		o.Do(f)
+		return
+	}
+	for {
+		switch onceState[o] {
+		case 2:
+			return
+		case 1:
+			Cur.Blocked("sync.Once.Do")
+			continue
+		}
+		done := false
+		o.Do(func() { done = true }) // claims the real Once without running f under its lock
+		if !done {
+			onceState[o] = 2 // completed before the simulation started
+			return
+		}
+		onceState[o] = 1
+		defer func() { onceState[o] = 2 }()
+		f()
+		return
+	}
+}
+
+var poolItems = map[*sync.Pool][]interface{}{}
+
+// PoolGet / PoolPut give sync.Pool a behaviour the simulator decides: whether Get
+// reuses a pooled object or calls New is a coin (sync.Pool may drop objects at any time).
+func PoolGet(p *sync.Pool) interface{} {
+	if Cur == nil {
+		return p.Get()
+	}
+	reuse := Cur.Coin("pool-reuse") // always drawn, so a task's decision stream does not depend on what other tasks put in the pool
+	if items := poolItems[p]; len(items) > 0 && reuse {
+		x := items[len(items)-1]
+		poolItems[p] = items[:len(items)-1]
+		return x
+	}
+	if p.New != nil {
+		return p.New()
+	}
+	return nil
+}
+
+func PoolPut(p *sync.Pool, x interface{}) {
+	if Cur == nil {
+		p.Put(x)
+		return
+	}
+	if x != nil {
+		poolItems[p] = append(poolItems[p], x)
+	}
+}
+
+func resetSync() {
+	onceState = map[*sync.Once]int{}
+	poolItems = map[*sync.Pool][]interface{}{}
 }
